@@ -686,9 +686,10 @@ def check_clique_many(case, ctx):
     from hypergraphx import Hypergraph
     from hypergraphx.representations.projections import clique_projection
     others = list(range(2, 14))
-    subsets = [c for r in range(0, 4) for c in combinations(others, r)]   # 299 subsets
+    subsets = [c for r in range(0, 5) for c in combinations(others, r)]   # 794 subsets
     chosen = permuted(subsets, case["order_seed"])[:case["count"]]
-    edges = [(0, 1) + c for c in chosen] + [tuple(e) for e in case["extra"]]
+    extra = {frozenset(e): tuple(e) for e in case["extra"]}               # distinct node sets
+    edges = [(0, 1) + c for c in chosen] + list(extra.values())
     h = Hypergraph(edges)
     h.add_node(99)
     kw = {} if case["keep_isolated"] is None else {"keep_isolated": case["keep_isolated"]}
